@@ -13,7 +13,7 @@ import (
 func init() {
 	register(&Spec{ID: "C07", Title: "Incomplete package data is always reported as 'not enough bytes'", Run: runC07,
 		Meta: core.Meta{
-			Explanation: "R07.10: PacketQueue.Read returns the full count together with ErrNotEnoughBytes; io.ReadFull/ReadAtLeast/ReadAll/Copy*/bufio discard the error of a read that filled the buffer, so no call of them in the module takes a BytesChannel (or an implementation) as its reader. R07.9 = R02.11: the bytes of a truncated package stay in Channel.queueRx for the retry, so nothing but the reader goroutine's own code may touch that queue. R07.8 = R03.2: the channel's record of the last received package (lastPkgRx, which the next package's LastPkg consults) is assigned only from a package that was delivered, after the delivery — a half-read package of a failed attempt must not become the predecessor of its own retry. Error-discipline typestate over SSA (E-ERR). W = the BytesChannel read methods plus every module function that calls into W and returns an error (fixpoint; interface invokes of Package/FieldFmt/FieldData.ReadFrom belong to W through their implementations). R07.1: for EVERY call into W made inside W, the error result is tested against nil before the next wire read and every return on the failure side returns ErrNotEnoughBytes, the error itself or fmt.Errorf with %w bound to one of them, or the error is returned as is; any other use (dropped, overwritten, %v/%s, errors.New, stored) is a violation. R07.2: every return of PacketQueue.Bytes carries nil or ErrNotEnoughBytes, and a nil-error return with data is dominated by the test that the copied count reached n. R07.3: in tryParsePackage the error of pkg.ReadFrom reaches errors.Is(.,ErrNotEnoughBytes) and its true edge returns false without sending on errCh/packageCh. R07.4: every arm of LookupPackage returns a freshly allocated package and no function in W stores to a package-level variable, so a failed attempt leaves no residue for the retry. R07.5: every module function outside W that performs wire reads is one of the enumerated consumers. R07.6: on the failure side of a call into W the other results of that call (invalid, typically nil, when the error is non-nil) are only passed on, never dereferenced — otherwise a truncated package panics instead of reporting ErrNotEnoughBytes. R07.7: the retry mechanism leaves no residue — C02's R02.1 rule set (rollback to the attempt's own saved position, Reset of the rx queue — which also clears recvEOM — on the end-of-message edge, one package per attempt) is re-run here.",
+			Explanation: "R07.11 = R15.14 (Byte/UintK/IntK/String never index the queue themselves: a fast path that does not step to the next packet panics when a re-parse resumes at a packet end). R07.10: PacketQueue.Read returns the full count together with ErrNotEnoughBytes; io.ReadFull/ReadAtLeast/ReadAll/Copy*/bufio discard the error of a read that filled the buffer, so no call of them in the module takes a BytesChannel (or an implementation) as its reader. R07.9 = R02.11: the bytes of a truncated package stay in Channel.queueRx for the retry, so nothing but the reader goroutine's own code may touch that queue. R07.8 = R03.2: the channel's record of the last received package (lastPkgRx, which the next package's LastPkg consults) is assigned only from a package that was delivered, after the delivery — a half-read package of a failed attempt must not become the predecessor of its own retry. Error-discipline typestate over SSA (E-ERR). W = the BytesChannel read methods plus every module function that calls into W and returns an error (fixpoint; interface invokes of Package/FieldFmt/FieldData.ReadFrom belong to W through their implementations). R07.1: for EVERY call into W made inside W, the error result is tested against nil before the next wire read and every return on the failure side returns ErrNotEnoughBytes, the error itself or fmt.Errorf with %w bound to one of them, or the error is returned as is; any other use (dropped, overwritten, %v/%s, errors.New, stored) is a violation. R07.2: every return of PacketQueue.Bytes carries nil or ErrNotEnoughBytes, and a nil-error return with data is dominated by the test that the copied count reached n. R07.3: in tryParsePackage the error of pkg.ReadFrom reaches errors.Is(.,ErrNotEnoughBytes) and its true edge returns false without sending on errCh/packageCh. R07.4: every arm of LookupPackage returns a freshly allocated package and no function in W stores to a package-level variable, so a failed attempt leaves no residue for the retry. R07.5: every module function outside W that performs wire reads is one of the enumerated consumers. R07.6: on the failure side of a call into W the other results of that call (invalid, typically nil, when the error is non-nil) are only passed on, never dereferenced — otherwise a truncated package panics instead of reporting ErrNotEnoughBytes. R07.7: the retry mechanism leaves no residue — C02's R02.1 rule set (rollback to the attempt's own saved position, Reset of the rx queue — which also clears recvEOM — on the end-of-message edge, one package per attempt) is re-run here.",
 			NotDecided:  "Panics on truncated data are C10's rule set. A parser that reads too little and succeeds is not detected here (C06's shape inclusion covers the shape part). Value equality of the retried parse is not decided beyond R07.4.",
 			Assumptions: []string{"errors.Is follows %w chains (standard library)", "BytesChannel has the single implementation PacketQueue, whose read methods all funnel into Bytes (checked in C15)"},
 		}})
@@ -33,6 +33,8 @@ func runC07(r *core.Run) {
 	defer func() { c03Synthetic(r, r.Prog.Field("tds", "DonePackage", "Status"), "R07.8") }()
 	r.Rule("R07.9", "only the reader goroutine touches the receive queue (R02.11)", 1, false)
 	r.Rule("R07.10", "no io.ReadFull/ReadAtLeast/Copy/bufio over a BytesChannel (they drop the short-read error of a filled buffer)", 1, false)
+	r.Rule("R07.11", "typed readers reach the stream through Bytes only: one place decides not-enough-bytes and steps over packet ends (R15.14)", 20, false)
+	defer c15TypedThroughBytes(r, "R07.11")
 	defer noGenericReaderOverQueue(r, "R07.10")
 	defer rxOwnership(r, "R07.9")
 
@@ -52,7 +54,7 @@ func runC07(r *core.Run) {
 	}
 
 	c07Bytes(r, ef)
-	c07Retry(r, ef)
+	c07Retry(r, ef, "R07.3")
 	c07Fresh(r, ef)
 	failedResultsUnused(r, ef, "R07.6")
 	c02Rollback(r, "R07.7")
@@ -121,7 +123,7 @@ func c07Bytes(r *core.Run, ef *errFlow) {
 	}
 }
 
-func c07Retry(r *core.Run, ef *errFlow) {
+func c07Retry(r *core.Run, ef *errFlow, rule string) {
 	p := r.Prog
 	fn := p.Func("tds", "Channel", "tryParsePackage")
 	pkgIface := p.Named("tds", "Package")
@@ -136,7 +138,7 @@ func c07Retry(r *core.Run, ef *errFlow) {
 		}
 	}
 	if rf == nil {
-		r.Unknown("R07.3", key, fn.Pos(), "no pkg.ReadFrom invoke found")
+		r.Unknown(rule, key, fn.Pos(), "no pkg.ReadFrom invoke found")
 		return
 	}
 	// find errors.Is(rfErr, ENEB)
@@ -147,7 +149,7 @@ func c07Retry(r *core.Run, ef *errFlow) {
 		}
 	}
 	if is == nil {
-		r.Bad("R07.3", key, rf.Pos(), "the error of pkg.ReadFrom is not examined with errors.Is(err, ErrNotEnoughBytes): a fragmented package is reported as a parse error or retried wrongly")
+		r.Bad(rule, key, rf.Pos(), "the error of pkg.ReadFrom is not examined with errors.Is(err, ErrNotEnoughBytes): a fragmented package is reported as a parse error or retried wrongly")
 		return
 	}
 	// the errors.Is call must sit on the err != nil side, its true edge returns false without sends
@@ -158,7 +160,7 @@ func c07Retry(r *core.Run, ef *errFlow) {
 		}
 	}
 	if iff == nil {
-		r.Unknown("R07.3", key, is.Pos(), "errors.Is result does not branch directly")
+		r.Unknown(rule, key, is.Pos(), "errors.Is result does not branch directly")
 		return
 	}
 	// path-wise (the two sides may share their tail, e.g. `if !errors.Is(...) { errCh <- ... }; return false`):
@@ -205,7 +207,7 @@ func c07Retry(r *core.Run, ef *errFlow) {
 	}
 	walk(iff.Block().Succs[0], true)
 	walk(iff.Block().Succs[1], false)
-	r.Check(ok, "R07.3", key, is.Pos(), "errors.Is(err, ErrNotEnoughBytes) → return false with no send; other errors → errCh", why)
+	r.Check(ok, rule, key, is.Pos(), "errors.Is(err, ErrNotEnoughBytes) → return false with no send; other errors → errCh", why)
 }
 
 func c07Fresh(r *core.Run, ef *errFlow) { freshRule(r, ef, "R07.4") }
